@@ -139,6 +139,10 @@ def fw(gens, tags, mech=None, **kw):
 PROPS = {
     "C05": fw([("general", 1500, 40000)], ALL_FW_TAGS,
               assumptions=["the correspondence samples histories; the bounded-exhaustive family of the property's quantifier is part of the thorough tier"]),
+    "C02": fw([("general", 2500, 40000)], {"A", "RP", "G", "res", "len"}, mech=["aP"],
+              assumptions=["packet counts below 2^53 (u64 -> f64 conversion exact); u64 counter overflow needs 2^64 events and is not modelled"]),
+    "C03": fw([("general", 2500, 40000)], {"A", "RB", "G", "res", "len"}, mech=["aB"],
+              assumptions=["the blocked share is the IEEE double the code computes (as_secs_f64 of both durations, one division); the exact-arithmetic reading holds up to that rounding"]),
     "C04": fw([("general", 1500, 30000)], {"A", "AT", "res", "len"}, mech=["aP", "aB", "aT", "aC"]),
 }
 
